@@ -125,9 +125,11 @@ CHECKS = {
                  "stored bytes depend only on the per-id payload sequence (stored_bytes_schedule_independent); the change/request/notification set is a function "
                  "of the two listings (change_set_is_a_function). Correspondence: each transfer is repeated under K seeded schedules (capacity 0..64, delays, "
                  "read splits, GOMAXPROCS 1..16) with an overlap detector that holds every SendMsg/RecvMsg open; final tree, REQ set, notification set with "
-                 "digests must coincide across schedules and with the Lean model; overlap count must be 0."),
-        "note": ("Trusted: Lean kernel + standard axioms. 'No data race' is a statement about the Go memory model that no pure model exhibits: NOT decided here "
-                 "(the overlap detector decides only 'no two stream calls in flight'). Schedules are those the seeded gates produce."),
+                 "digests must coincide across schedules and with the Lean model; overlap count must be 0; the same schedules are executed by a harness "
+                 "built with -race and every report of the Go race detector is a violation (suite 'race')."),
+        "note": ("Trusted: Lean kernel + standard axioms. 'No data race' is a statement about the Go memory model that no pure model exhibits: it is decided "
+                 "by the Go race detector on the executed schedules, i.e. by search, not by a theorem (labelled partial for that clause). Schedules are those "
+                 "the seeded gates produce."),
     },
     "C03": {
         "text": ("Lean theorems (unbounded): a path passing the repaired lexical test consists of plain components only, so it names a strict descendant of "
